@@ -431,6 +431,8 @@ func vRunRace(c *vCase) {
 		{name: "lancero-card", mode: 'B', source: "LANCEROSOURCE", nchan: 12, lancero: true},
 		{name: "abaco-scripted", mode: 'B', source: "ABACOSOURCE", nchan: 5},
 		{name: "triangle-long-blocks", mode: 'A', source: "TRIANGLESOURCE", nchan: 2},
+		{name: "selfend", mode: 'B', source: "SELFEND", nchan: 3},
+		{name: "erroring-rpc", mode: 'A', source: "ERRORINGSOURCE", nchan: 1},
 	}
 	w := workloads[c.Idx%len(workloads)]
 	c.Describe("workload=%s seed=%d idx=%d", w.name, c.Seed, c.Idx)
@@ -454,6 +456,70 @@ func vRunRace(c *vCase) {
 		k.client = e.client
 		reconfigure = func() bool {
 			return k.must("ConfigureTriangleSource", &TriangleSourceConfig{Nchan: w.nchan, SampleRate: 200000, Min: 100, Max: 600}, &okay)
+		}
+	case "selfend":
+		// a source that ends by itself (error block or closed channel) while the client keeps sending requests
+		sc, stop := vNewInPackageControl()
+		k.sc = sc
+		cleanup = func() { close(stop) }
+		cycles = 0
+		for cyc := 0; cyc < 4; cyc++ {
+			self := vNewSelfEnd(3, cyc%2, 0)
+			sc.ActiveSource = self
+			sc.status.SourceName = "SelfEnd"
+			sc.status.Npresamp, sc.status.Nsamples = 8, 32
+			if err := Start(self, sc.queuedRequests, 8, 32); err != nil {
+				k.errs = append(k.errs, fmt.Sprintf("Start(selfend): %v", err))
+				break
+			}
+			sc.isSourceActive = true
+			sc.status.Running = true
+			sc.status.Nchannels = 3
+			fts := FullTriggerState{ChannelIndices: []int{0, 1, 2}}
+			fts.AutoTrigger = true
+			var s string
+			k.must("ConfigureTriggers", &fts, &okay)
+			k.must("SendAllStatus", &s, &okay)
+			time.Sleep(time.Duration(5+c.R.Intn(10)) * time.Millisecond)
+			close(self.endNow)
+			// requests racing the end of the source: their replies do not matter here (C11 judges them)
+			for i := 0; i < 12; i++ {
+				switch i % 4 {
+				case 0:
+					k.call("SendAllStatus", &s, &okay)
+				case 1:
+					k.call("ConfigureTriggers", &fts, &okay)
+				case 2:
+					k.call("ConfigurePulseLengths", SizeObject{Nsamp: 32 + 8*(i%3), Npre: 8}, &okay)
+				case 3:
+					k.call("WriteControl", &WriteControlConfig{Request: "PAUSE"}, &okay)
+				}
+				if i%3 == 2 {
+					time.Sleep(time.Duration(c.R.Intn(600)) * time.Microsecond)
+				}
+			}
+			k.call("Stop", &s, &okay)
+			for i := 0; i < 3000 && self.GetState() != Inactive; i++ {
+				time.Sleep(time.Millisecond)
+			}
+			c.Cov("self_terminations_with_racing_requests", 1)
+		}
+	case "erroring-rpc":
+		k.client = e.client
+		cycles = 0
+		for cyc := 0; cyc < 3; cyc++ {
+			src := w.source
+			var s string
+			if !k.must("Start", &src, &okay) {
+				break
+			}
+			for i := 0; i < 4; i++ {
+				k.call("SendAllStatus", &s, &okay)
+			}
+			k.call("WaitForStopTestingOnly", &s, &okay)
+			k.call("SendAllStatus", &s, &okay)
+			k.call("Stop", &s, &okay)
+			c.Cov("self_terminations_with_racing_requests", 1)
 		}
 	case "triangle-long-blocks":
 		// 2.2 s blocks: one block crosses two of the 1-second trigger-rate reporting boundaries
@@ -543,9 +609,9 @@ func init() {
 	vRegister("C17", &vProp{
 		Cases: func(tier string) int {
 			if tier == "thorough" {
-				return 120
+				return 160
 			}
-			return 18
+			return 24
 		},
 		Setup: vRaceSetup,
 		Run:   vRunRace,
@@ -553,7 +619,7 @@ func init() {
 			Rule: "case = one workload (triangle, triangle with 2.2 s blocks, simpulse, abaco over loopback UDP against the real RunRPCServer via one JSON-RPC connection; scripted Lancero card, scripted two-producer Abaco against an in-package SourceControl wired like RunRPCServer) x one yield seed: two start/stop cycles, each with pulse-length change, edge+level+auto triggers on all channels, edge-multi on one channel, group-trigger connections, err->fb coupling and mix changes (Lancero), projectors on two channels, START of LJH2.2+LJH3+OFF writing, state label, comment write/read, two raw-data blocks, SENDALL, PAUSE/UNPAUSE, STOP, while RunClientUpdater publishes and saves the configuration every 30 ms; verifPoint sites yield or sleep pseudo-randomly. The binary is race-instrumented; every DATA RACE report with a repository frame is a violation (de-duplicated by the pair of innermost/outermost repository functions); non-trivial = workload ran without a failed request",
 			Assumptions: []string{"only executed accesses are seen; libzmq (cgo) is not instrumented", "single client: one JSON-RPC connection or one calling goroutine"},
 			Guards: map[string]map[string]int{
-				"quick":    {"blocks_processed": 300, "requests_issued": 300, "yields_injected": 500, "output_files_written": 50, "config_saves": 5, "raw_block_requests": 20, "raw_blocks_completed": 20, "workload_triangle": 1, "workload_simpulse": 1, "workload_abaco-udp": 1, "workload_lancero-card": 1, "workload_abaco-scripted": 1, "workload_triangle-long-blocks": 1},
+				"quick":    {"blocks_processed": 300, "requests_issued": 300, "yields_injected": 500, "output_files_written": 50, "config_saves": 5, "raw_block_requests": 20, "raw_blocks_completed": 20, "workload_triangle": 1, "workload_simpulse": 1, "workload_abaco-udp": 1, "workload_lancero-card": 1, "workload_abaco-scripted": 1, "workload_triangle-long-blocks": 1, "workload_selfend": 1, "workload_erroring-rpc": 1, "self_terminations_with_racing_requests": 6},
 				"thorough": {"blocks_processed": 3000, "requests_issued": 3000},
 			}},
 	})
